@@ -418,8 +418,16 @@ class Engine:
         (values may be mutated in place while iterating, adding / removing keys may not)."""
         ks = self.w.sort(d.ty.args[0])
         _, has, _ = self.dct(d)
-        h = has(d.term)
+        return self._keyset_order(has(d.term), ks, sorted_)
+
+    def _keyset_order(self, h, ks, sorted_: bool = False, _depth: int = 0):
         hs = h.sort()
+        base_info = None
+        if z3.is_store(h) and _depth < 6 and not (self.binders and self._mentions_bound(h)):
+            # one key added / removed: the size changes accordingly (cardinality of the key set)
+            b, key, v = h.arg(0), h.arg(1), h.arg(2)
+            bsize, _, _ = self._keyset_order(b, ks, sorted_, _depth + 1)
+            base_info = (bsize, z3.Select(b, key), v)
         if not self._pattern_safe(h):
             # store / ite / constant-array terms may not occur in triggers: name the key set
             names = self.st.__dict__.setdefault("keyset_names", {})
@@ -447,6 +455,9 @@ class Engine:
         i = z3.Const("oi", z3.IntSort())
         k = z3.Const("ok", ks)
         self.side_fact(size >= 0)
+        if base_info is not None:
+            bsize, had, v = base_info
+            self.side_fact(size == bsize + z3.If(v, z3.If(had, 0, 1), z3.If(had, -1, 0)))
         # ground instance at 0 (no term order[0] exists to trigger it): an empty key set has size 0
         self.side_fact(z3.Implies(size > 0, z3.Select(h, z3.Select(order, 0))))
         self.side_fact(z3.ForAll([i], z3.Implies(z3.And(0 <= i, i < size),
